@@ -4,6 +4,7 @@ import (
 	"crypto/rsa"
 	"encoding/json"
 	"fmt"
+	"math"
 	"net/url"
 	"strings"
 	"sync"
@@ -78,6 +79,10 @@ func c15seq(c *run.Ctx) {
 			cl["aud"] = []string{"https://x.example", world.TokenURL}
 		}},
 		{"valid-client_id-param", true, false, func(cl, hd map[string]interface{}, sg *signSpec) { sg.clientID = "pk-rs" }},
+		// far-future expiries: unexpired by any reading, so whatever the endpoint does with them, an accepted one is accepted once
+		{"valid-exp-maxint64", true, true, func(cl, hd map[string]interface{}, sg *signSpec) { cl["exp"] = int64(math.MaxInt64) }},
+		{"valid-exp-2^62", true, true, func(cl, hd map[string]interface{}, sg *signSpec) { cl["exp"] = int64(1) << 62 }},
+		{"valid-exp-year-9999", true, false, func(cl, hd map[string]interface{}, sg *signSpec) { cl["exp"] = int64(253402300799) }},
 		{"valid-exp-float", true, false, func(cl, hd map[string]interface{}, sg *signSpec) {
 			cl["exp"] = float64(now().Add(90*time.Second).Unix()) + 0.5
 		}},
@@ -206,6 +211,15 @@ func c15seq(c *run.Ctx) {
 				switch {
 				case unspec:
 					c.Unspecified("client-assertion-" + m.name)
+					if ok && m.valid {
+						// whether it is accepted is open; accepted twice it must not be
+						out2 := w.Token(form, au)
+						c.Case(fmt.Sprintf("client-assertion (%s) replay accepted=%v err=%s", m.name, out2.Err == nil, out2.ErrName))
+						c.Count("c15_replays_rejected", 1)
+						if out2.Err == nil {
+							c.Violate(run.Violation{Kind: "jti-accepted-twice", Key: "jti-accepted-twice client-assertion sequential (" + m.name + ")", Detail: "the same client assertion authenticated twice", History: hist})
+						}
+					}
 				case !valid:
 					c.Count("c15_invalid_rejected", 1)
 					if ok {
